@@ -307,5 +307,30 @@ def r16_8(ctx):
     from .common import delegate
     delegate(ctx, c17.r17_2, lambda c: "set_sel_node_bool_val" in c or "assignable" in c)
 
+def r16_9(ctx):
+    """R16.9 every entry of the main file that names an unknown option - assignments and `is not set` lines alike - is
+    recorded in Kconfig.missing_syms (through _undef_assign): needs_save() relies on that list to know that saving would
+    drop a line the file still has."""
+    repo = ctx.repo
+    f = repo.func(f"{CORE}:Kconfig._load_config")
+    ctx.analysed(f.qual)
+    fl = Flow(f.node, resolver=Resolver(f.node)).run()
+    calls = [n for n in ast.walk(f.node) if isinstance(n, ast.Call) and ast.unparse(n.func) == "self._undef_assign" and repo.enclosing_func(n) is f]
+    kinds = {"assignment": False, "`is not set`": False}
+    for c in calls:
+        if len(c.args) > 1 and isinstance(c.args[1], ast.Constant) and c.args[1].value == "n":
+            kinds["`is not set`"] = True
+        else:
+            kinds["assignment"] = True
+    for k, ok in kinds.items():
+        construct = f"Kconfig._load_config/unknown {k} entries are recorded in missing_syms"
+        (ctx.ok(construct, f.loc(calls[0]) if calls else f.loc()) if ok else
+         ctx.bad(construct, f"an {k} line for an option the tree does not define is no longer passed to _undef_assign(): the session reports clean while the "
+                 "file has a line that saving would drop", f.loc()))
+    ua = repo.func(f"{CORE}:Kconfig._undef_assign")
+    construct = "Kconfig._undef_assign/appends to missing_syms unconditionally"
+    app = [n for n in ua.node.body if isinstance(n, ast.Expr) and isinstance(n.value, ast.Call) and ast.unparse(n.value.func) == "self.missing_syms.append"]
+    (ctx.ok(construct, ua.loc(app[0]), nontrivial=False) if app else ctx.bad(construct, "the record is conditional or gone", ua.loc()))
+
 def rules():
-    return [("R16.8", r16_8, 2), ("R16.7", r16_7, 3), ("R16.1", r16_1, 2), ("R16.2", r16_2, 11), ("R16.3", r16_3, 3), ("R16.4", r16_4, 2), ("R16.5", r16_5, 6), ("R16.6", r16_6, 4)]
+    return [("R16.9", r16_9, 2), ("R16.8", r16_8, 2), ("R16.7", r16_7, 3), ("R16.1", r16_1, 2), ("R16.2", r16_2, 11), ("R16.3", r16_3, 3), ("R16.4", r16_4, 2), ("R16.5", r16_5, 6), ("R16.6", r16_6, 4)]
